@@ -7,7 +7,9 @@ repo = sys.argv[1] if len(sys.argv) > 1 else "/repo"
 base = json.load(open("/root/.vp/BASELINE.json"))
 with tempfile.TemporaryDirectory() as td:
     x = os.path.join(td, "j.xml")
-    env = dict(os.environ, PYTHONDONTWRITEBYTECODE="1", PYTHONPATH=repo)
+    # a throw-away hypothesis example database: a rare falsifying example of a pinned hypothesis test (test_model_json_conversion fails for
+    # about 1 random seed in 40, at the pinned commit too) must never be stored in <repo>/.hypothesis, where it would be replayed for ever
+    env = dict(os.environ, PYTHONDONTWRITEBYTECODE="1", PYTHONPATH=repo, HYPOTHESIS_STORAGE_DIRECTORY=os.path.join(td, "hyp"))
     env.pop("PUAN_VERIF", None)
     subprocess.run(["/venv/bin/python", "-m", "pytest", "-ra", "-q", "-p", "no:cacheprovider", "--timeout=900",
                     "--continue-on-collection-errors", "--junitxml=" + x], cwd=repo, env=env,
@@ -23,6 +25,9 @@ newpass = sorted(passed - set(base["stable_pass"]))
 print(f"passed={len(passed)} failed={len(failed)} baseline={len(base['stable_pass'])} baseline_missing={len(missing)}")
 for m in missing:
     print("  NOT PASSING:", m)
-for m in newpass:
-    print("  newly passing:", m)
+try:
+    for m in newpass:
+        print("  newly passing:", m)
+except BrokenPipeError:
+    pass
 sys.exit(1 if missing else 0)
